@@ -125,6 +125,15 @@ func genC07Cache(level int) []*CacheScen {
 			}
 		}
 		add(&CacheScen{Rel: RelSD, NKeys: 3, Init: []int{IAbsent, IExpired, ILive}, Table: TGrowArmed, Threads: [][]CIn{{cRange}, {con(cSet, 0)}}})
+		// Items (built on Range) alone and against writers
+		cItems := CIn{Op: CItems}
+		add(&CacheScen{Rel: RelSD, NKeys: 3, Init: []int{ILiveTTL, IExpired, ILive}, Table: TPlain, Threads: [][]CIn{{cItems}}})
+		for _, w := range []CIn{cSet, cDelete, cDelExp, cGaR} {
+			for _, i0 := range []int{ILive, IExpired} {
+				add(&CacheScen{Rel: RelSD, NKeys: 3, Init: []int{i0, IExpired, ILive}, Table: TPlain, Threads: [][]CIn{{cItems}, {con(w, 0)}}})
+			}
+		}
+		add(&CacheScen{Rel: RelSD, NKeys: 3, Init: []int{ILive, IExpired, ILive}, Table: TPlain, Warm: true, Threads: [][]CIn{{cItems}, {con(cSet, 0)}}})
 		// traversals of a cache with a history (resized, cleaned up once), alone and against a writer / a cleanup
 		// pass, and with an entry that expires while the traversal may be running
 		add(&CacheScen{Rel: RelSD, NKeys: 3, Init: []int{ILiveTTL, IExpired, ILive}, Table: TPlain, Warm: true, Threads: [][]CIn{{cRange}}})
